@@ -235,6 +235,9 @@ def sibling_explains(schema, value, is_valid):
             verdicts = [is_valid(value, b) for b in branches]
             if any(verdicts) and not all(verdicts):
                 return True
+            # alternatives nested inside a branch (a nullable schema as a branch of another combinator)
+            if any(sibling_explains(b, value, is_valid) for b in branches if isinstance(b, dict)):
+                return True
     if schema.get("nullable") or schema.get("x-nullable"):
         typed = {k: v for k, v in schema.items() if k not in ("nullable", "x-nullable")}
         verdicts = [is_valid(value, typed), value is None]
